@@ -1,7 +1,12 @@
 package main
 
 import (
+	"bufio"
+	"fmt"
 	"math/rand"
+	"net"
+	"net/http"
+	"time"
 )
 
 func init() {
@@ -226,4 +231,182 @@ func sorted(xs []int) []int {
 		}
 	}
 	return xs
+}
+
+// ---------------------------------------------------------------- C08 at the gateway: the real transports
+//
+// The websocket transport hands the packet loop one message per read, however the
+// message was framed or segmented underneath; the legacy transport reads the
+// chunked body of the RDG_IN_DATA request wherever TCP put the first boundary.
+// Each tunnel is compared with the model's run over the packets the client sent.
+func init() { streams["c08gw"] = streamC08Gw }
+
+func streamC08Gw(env *runEnv) {
+	r := rand.New(rand.NewSource(env.seed + 8))
+	srv := newL2Server(false, 0)
+	defer srv.close()
+	all := [4]bool{true, true, true, true}
+	sizes := []int{100, 4000, 4089, 5000, 20000, 60000}
+	if env.thorough() {
+		sizes = append(sizes, 4080, 4088, 4090, 8192, 12000, 33000, 65000)
+	}
+	n := 0
+	for _, size := range sizes {
+		for _, how := range []string{"single", "fragments2", "fragments4", "split-header", "split-payload"} {
+			n++
+			b := newTagBackend(nil)
+			host, port := splitHostPort(b.addr)
+			id := fmt.Sprintf("{c08gw-%d-%d}", env.seed, n)
+			ws, st, _, err := wsDial(srv.inst, wsOpts{connID: id})
+			if err != nil || st != 101 {
+				env.emit("tunnel", "00001", "ws", "-", hx([]byte(b.addr)), "-", fmt.Sprintf("ERR:upgrade %d %v", st, err))
+				b.close()
+				continue
+			}
+			payload := randBytes(r, size)
+			tail := []byte("<after-the-big-one>")
+			pk := [][]byte{
+				packet(ptHandshake, handshakeBody(1, 0, 0, 0)),
+				packet(ptTunnelCreate, tunnelCreateBody(0, "", false)),
+				packet(ptTunnelAuth, tunnelAuthBody("pc")),
+				packet(ptChannelCreate, channelCreateBody(host, port)),
+			}
+			var resp [][]byte
+			for _, p := range pk {
+				ws.send(p)
+				if m, e := ws.recv(3 * time.Second); e == nil {
+					resp = append(resp, m)
+				}
+			}
+			big := packet(ptData, dataBody(payload))
+			switch how {
+			case "single":
+				ws.send(big)
+			case "fragments2":
+				k := 1 + r.Intn(len(big)-1)
+				ws.sendFragments([][]byte{big[:k], big[k:]})
+			case "fragments4":
+				q := len(big) / 4
+				ws.sendFragments([][]byte{big[:q], big[q : 2*q], big[2*q : 3*q], big[3*q:]})
+			case "split-header":
+				ws.sendSplit(big, 1+r.Intn(5), 40*time.Millisecond)
+			default:
+				ws.sendSplit(big, 20+r.Intn(len(big)-20), 40*time.Millisecond)
+			}
+			ws.send(packet(ptData, dataBody(tail)))
+			ws.send(packet(ptCloseChannel, nil))
+			closed := false
+			for {
+				m, e := ws.recv(2 * time.Second)
+				if e != nil {
+					if ne, ok := e.(net.Error); !(ok && ne.Timeout()) {
+						closed = true
+					}
+					break
+				}
+				resp = append(resp, m)
+			}
+			ws.close()
+			res := tunnelResult{responses: resp, closed: closed}
+			obs := tunnelObservation(srv, id, res, b, nil)
+			pk = append(pk, big, packet(ptData, dataBody(tail)), packet(ptCloseChannel, nil))
+			var items []item
+			for _, p := range pk {
+				items = append(items, item{data: p, ans: all})
+			}
+			env.count("c08gw.ws." + how)
+			env.emit("tunnel", "00001", "ws", "-", hx([]byte(b.addr)), itemsString(items), obs)
+			b.close()
+		}
+	}
+	// legacy: where TCP puts the first boundary of the RDG_IN_DATA request
+	for _, coalesce := range []string{"head-alone", "head+chunk", "head+half-chunk"} {
+		n++
+		b := newTagBackend(nil)
+		host, port := splitHostPort(b.addr)
+		id := fmt.Sprintf("{c08gw-%d-%d}", env.seed, n)
+		pk := [][]byte{
+			packet(ptHandshake, handshakeBody(1, 0, 0, 0)),
+			packet(ptTunnelCreate, tunnelCreateBody(0, "", false)),
+			packet(ptTunnelAuth, tunnelAuthBody("pc")),
+			packet(ptChannelCreate, channelCreateBody(host, port)),
+			packet(ptData, dataBody([]byte("<legacy-payload>"))),
+			packet(ptCloseChannel, nil),
+		}
+		obs := legacyCoalesced(srv, id, pk, coalesce, b)
+		var items []item
+		for _, p := range pk {
+			items = append(items, item{data: p, ans: all})
+		}
+		env.count("c08gw.legacy." + coalesce)
+		env.emit("tunnel", "00001", "legacy", "-", hx([]byte(b.addr)), itemsString(items), obs)
+		b.close()
+	}
+}
+
+// legacyCoalesced opens a legacy tunnel whose RDG_IN_DATA request head is written
+// together with (part of) the first chunk. The gateway discards the first thing
+// it reads after accepting the channel (Drain), so the first chunk is a throw-away
+// one, exactly as in the separate-writes client.
+func legacyCoalesced(srv *l2server, id string, pk [][]byte, mode string, b *tagBackend) string {
+	g := srv.inst
+	out, outBr, st, err := legacyOpenOut(g, id, nil)
+	if err != nil || st != 200 {
+		return fmt.Sprintf("ERR:out %d %v", st, err)
+	}
+	defer out.Close()
+	in, err := dialRaw(g)
+	if err != nil {
+		return "ERR:dial"
+	}
+	defer in.Close()
+	chunk := func(p []byte) []byte { return append(append([]byte(fmt.Sprintf("%x\r\n", len(p))), p...), '\r', '\n') }
+	head := []byte(fmt.Sprintf("RDG_IN_DATA /remoteDesktopGateway/ HTTP/1.1\r\nHost: gw\r\nRdg-Connection-Id: %s\r\nTransfer-Encoding: chunked\r\n\r\n", id))
+	first := chunk(pk[0])
+	switch mode {
+	case "head-alone":
+		in.Write(head)
+	case "head+chunk":
+		in.Write(append(append([]byte{}, head...), first...))
+	default:
+		in.Write(append(append([]byte{}, head...), first[:len(first)/2]...))
+	}
+	ibr := bufio.NewReader(in)
+	in.SetReadDeadline(time.Now().Add(3 * time.Second))
+	resp, err := http.ReadResponse(ibr, &http.Request{Method: "GET"})
+	if err != nil || resp.StatusCode != 200 {
+		return "ERR:in"
+	}
+	in.SetReadDeadline(time.Time{})
+	in.Write([]byte("drain-me")) // swallowed by the gateway's Drain()
+	time.Sleep(80 * time.Millisecond)
+	switch mode {
+	case "head-alone":
+		in.Write(first)
+	case "head+half-chunk":
+		in.Write(first[len(first)/2:])
+	}
+	l := &legacyConn{out: out, outBr: outBr, in: in, inBr: ibr}
+	var resps [][]byte
+	get := func() {
+		if m, e := l.recv(2 * time.Second); e == nil {
+			resps = append(resps, m)
+		}
+	}
+	get()
+	for _, p := range pk[1:] {
+		in.Write(chunk(p))
+		time.Sleep(15 * time.Millisecond)
+		ty := int(p[0]) | int(p[1])<<8
+		if ty != ptData {
+			get()
+		}
+	}
+	closed := false
+	if _, e := l.recv(1500 * time.Millisecond); e != nil {
+		if ne, ok := e.(net.Error); !(ok && ne.Timeout()) {
+			closed = true
+		}
+	}
+	return tunnelObservation(srv, id, tunnelResult{responses: resps, closed: closed}, b, nil)
 }
